@@ -21,7 +21,7 @@ OUTPUT = "LifecycleGen.v"
 ITEMS = ["runner_cleanup_finally", "record_after_enter", "exits_reversed", "exit_errors_collected", "ctx receiver registered first",
          "Application.cleanup shape", "AppRunner._make_server shape", "runner_cleanup_seq",
          "run_app_setup_in_try", "Server.pre_shutdown/shutdown shape", "shutdown_phases",
-         "close/force_close shape", "drops_data_when_closing", "ceil_threshold_ms"]
+         "close_closes_idle", "nonpositive_timeout_no_wait", "force_close shape", "drops_data_when_closing", "Application._cleanup_started_contexts shape", "ceil_threshold_ms"]
 
 APP = "aiohttp/web_app.py"
 RUN = "aiohttp/web_runner.py"
@@ -147,10 +147,12 @@ def _app_init():
     # sub-application signals are appended (registration order) on all three signals
     reg = core.find_function(APP, "_reg_subapp_signals", cls="Application")
     txt = _u(reg)
-    for need in ("await subsig.send(subapp)", "appsig.append(handler)", "reg_handler('on_startup')",
+    txt = " ".join(txt.split())
+    for need in ("if signame == 'on_cleanup': await subapp.cleanup() else: await subsig.send(subapp) appsig = getattr(self, signame)",
+                 "appsig.append(handler)", "reg_handler('on_startup')",
                  "reg_handler('on_shutdown')", "reg_handler('on_cleanup')"):
         if need not in txt:
-            raise TranslatorError(f"_reg_subapp_signals: missing {need!r}")
+            raise TranslatorError(f"_reg_subapp_signals: missing {need!r}\n{txt}")
     add = _u(core.find_function(APP, "_add_subapp", cls="Application"))
     for need in ("self._reg_subapp_signals(subapp)", "subapp.pre_freeze()"):
         if need not in add:
@@ -282,20 +284,43 @@ def _server():
           "    await asyncio.gather(*coros)\n    self._connections.clear()")
 
 
+_CLOSING_FEED = """
+if self._force_close or self._close:
+    request = self._current_request
+    if request is not None and (not request.content.is_eof()) and (self.transport is not None) and (self._parser is not None) and (self._payload_parser is None) and (not self._upgraded):
+        try:
+            self._parser.feed_data(data)
+        except HttpProcessingError:
+            pass
+    return
+"""
+
+
 def _protocol():
-    _same(PROTO, "close", "RequestHandler",
-          "def close(self):\n    self._close = True\n    if self._waiter:\n        self._waiter.cancel()")
+    """-> (drops_data_when_closing, shutdown_phases, close_closes_idle, nonpositive_timeout_no_wait)"""
+    close_old = "def close(self):\n    self._close = True\n    if self._waiter:\n        self._waiter.cancel()"
+    close_new = ("def close(self):\n    self._close = True\n    if self._waiter:\n        self._waiter.cancel()\n"
+                 "        if self.transport is not None:\n            self.transport.close()\n            self.transport = None")
+    got = _norm(core.find_function(PROTO, "close", cls="RequestHandler"))
+    if got == _norm(ast.parse(close_new).body[0]):
+        closes_idle = True
+    elif got == _norm(ast.parse(close_old).body[0]):
+        closes_idle = False
+    else:
+        raise TranslatorError("RequestHandler.close differs from the shapes the model transcribes:\n" + got)
     _same(PROTO, "force_close", "RequestHandler",
           "def force_close(self):\n    self._force_close = True\n    if self._waiter:\n        self._waiter.cancel()\n"
           "    if self.transport is not None:\n        self.transport.close()\n        self.transport = None")
     dr = core.find_function(PROTO, "data_received", cls="RequestHandler")
     first = _body(dr)[0]
-    drops = isinstance(first, ast.If) and _u(first.test) == "self._force_close or self._close" and [_u(s) for s in first.body] == ["return"]
-    if not drops:
-        if isinstance(first, ast.If) and _u(first.test) == "self._force_close" and [_u(s) for s in first.body] == ["return"]:
-            drops = False
-        else:
-            raise TranslatorError("RequestHandler.data_received: unrecognised guard " + _u(first)[:120])
+    if not (isinstance(first, ast.If) and _u(first.test) == "self._force_close or self._close" and not first.orelse):
+        raise TranslatorError("RequestHandler.data_received: unrecognised guard " + _u(first)[:120])
+    if [_u(s) for s in first.body] == ["return"]:
+        drops = True
+    elif _u(first) == _u(ast.parse(_CLOSING_FEED).body[0]):
+        drops = False          # the rest of the body of the request in flight is still fed to the parser
+    else:
+        raise TranslatorError("RequestHandler.data_received: closing guard differs from the transcribed shapes:\n" + _u(first))
     sh = core.find_function(PROTO, "shutdown", cls="RequestHandler")
     b = _body(sh)
     if _u(b[0]) != "self._force_close = True":
@@ -309,10 +334,32 @@ def _protocol():
     tail = [_u(s) for s in b[-2:]]
     if tail != ["if self._task_handler is not None:\n    self._task_handler.cancel()", "self.force_close()"]:
         raise TranslatorError("RequestHandler.shutdown: must end with task cancel + force_close; got " + repr(tail))
-    txt = _u(sh)
-    if "if self._request_in_progress:" not in txt or "await self._handler_waiter" not in txt or "await asyncio.shield(self._task_handler)" not in txt:
+    # statement skeleton: [force_close flag, cancel keep-alive handle, (wait = ...), if in progress: wait 1, try: cancel body + wait 2, ...]
+    stmts = [_u(x) for x in b]
+    has_wait = "wait = timeout is None or timeout > 0" in stmts
+    ifs = [x for x in b if isinstance(x, ast.If) and "_request_in_progress" in _u(x.test)]
+    tries = [x for x in b if isinstance(x, ast.Try)]
+    if len(ifs) != 1 or len(tries) != 1 or b.index(ifs[0]) > b.index(tries[0]):
         raise TranslatorError("RequestHandler.shutdown: wait-for-handler structure changed")
-    return drops, phases
+    for x in b[:b.index(ifs[0])]:
+        if "_cancel(" in _u(x):
+            raise TranslatorError("RequestHandler.shutdown: the request body is failed before the graceful wait")
+    if "await self._handler_waiter" not in _u(ifs[0]):
+        raise TranslatorError("RequestHandler.shutdown: first wait does not await the handler waiter")
+    tb = tries[0].body
+    if len(tb) != 1 or not isinstance(tb[0], ast.AsyncWith):
+        raise TranslatorError("RequestHandler.shutdown: second wait structure changed")
+    inner = [_u(x) for x in tb[0].body]
+    cancel_body = "if self._current_request is not None:\n    self._current_request._cancel(asyncio.CancelledError())"
+    shield_new = "if wait and self._task_handler is not None and (not self._task_handler.done()):\n    await asyncio.shield(self._task_handler)"
+    shield_old = "if self._task_handler is not None and (not self._task_handler.done()):\n    await asyncio.shield(self._task_handler)"
+    if has_wait and _u(ifs[0].test) == "self._request_in_progress and wait" and inner == [cancel_body, shield_new]:
+        no_wait = True
+    elif not has_wait and _u(ifs[0].test) == "self._request_in_progress" and inner == [cancel_body, shield_old]:
+        no_wait = False
+    else:
+        raise TranslatorError("RequestHandler.shutdown: wait-for-handler structure changed:\n" + "\n".join(inner))
+    return drops, phases, closes_idle, no_wait
 
 
 def _ceil_timeout():
@@ -338,14 +385,24 @@ def generate() -> str:
     rec = _on_startup()
     rev, coll = _on_cleanup()
     _app_init()
+    _RAISE = ("    if errors:\n        if len(errors) == 1:\n            raise errors[0]\n        else:\n"
+              "            raise CleanupError('Multiple errors on cleanup stage', errors)\n")
     _same(APP, "cleanup", "Application",
-          "async def cleanup(self):\n    if self.on_cleanup.frozen:\n        await self.on_cleanup.send(self)\n"
-          "    else:\n        await self._cleanup_ctx._on_cleanup(self)")
+          "async def cleanup(self):\n    if self.on_cleanup.frozen:\n        errors = []\n        for receiver in self.on_cleanup:\n"
+          "            try:\n                await receiver(self)\n            except (Exception, asyncio.CancelledError) as exc:\n"
+          "                errors.append(exc)\n"
+          + "".join("    " + ln + "\n" for ln in _RAISE.splitlines()) +
+          "    else:\n        await self._cleanup_started_contexts()")
+    _same(APP, "_cleanup_started_contexts", "Application",
+          "async def _cleanup_started_contexts(self):\n    errors: T = []\n    try:\n        await self._cleanup_ctx._on_cleanup(self)\n"
+          "    except (Exception, asyncio.CancelledError) as exc:\n        errors.append(exc)\n    for subapp in self._subapps:\n"
+          "        try:\n            await subapp._cleanup_started_contexts()\n        except (Exception, asyncio.CancelledError) as exc:\n"
+          "            errors.append(exc)\n" + _RAISE)
     _make_server()
     seq, fin = _runner_cleanup()
     intry = _run_app()
     _server()
-    drops, phases = _protocol()
+    drops, phases, closes_idle, no_wait = _protocol()
     thr = _ceil_timeout()
     out.append("(* web_app.CleanupContext._on_startup: `self._exits.append(ctx)` comes after `await ctx.__aenter__()` *)\n"
                f"Definition record_after_enter : bool := {b(rec)}.\n")
@@ -361,8 +418,14 @@ def generate() -> str:
                f"Definition run_app_setup_in_try : bool := {b(intry)}.\n")
     out.append("(* web_protocol.RequestHandler.shutdown: number of `async with ceil_timeout(timeout)` waits before the task is cancelled *)\n"
                f"Definition shutdown_phases : N := {phases}.\n")
-    out.append("(* web_protocol.RequestHandler.data_received returns at once when close() or force_close() was called *)\n"
+    out.append("(* web_protocol.RequestHandler.data_received returns at once when close() or force_close() was called (true), or still\n"
+               "   feeds the rest of the body of the request in flight while the transport is open (false) *)\n"
                f"Definition drops_data_when_closing : bool := {b(drops)}.\n")
+    out.append("(* web_protocol.RequestHandler.close() closes the transport when the connection is idle (waiter pending) *)\n"
+               f"Definition close_closes_idle : bool := {b(closes_idle)}.\n")
+    out.append("(* web_protocol.RequestHandler.shutdown(timeout): a non-positive timeout skips both waits (true) or, through\n"
+               "   ceil_timeout, means no deadline at all (false) *)\n"
+               f"Definition nonpositive_timeout_no_wait : bool := {b(no_wait)}.\n")
     out.append("(* helpers.ceil_timeout: deadlines of delays strictly greater than this many ms are rounded up to a whole second;\n"
                "   a delay <= 0 (or None) means no deadline *)\n"
                f"Definition ceil_threshold_ms : Z := {thr}%Z.\n")
